@@ -40,6 +40,13 @@ def main():
         shutil.copy(os.path.join(a.src, "seed_demo.py"), os.path.join(dst, "demo.py"))
     wt = "/var/tmp/seedwt-%s-%d" % (a.name, os.getpid())
     meta = {"name": a.name, "property": a.property, "needs": a.needs, "ran": [], "checks": {}}
+    try:
+        prev = json.load(open(os.path.join(dst, "meta.json"), encoding="utf8"))
+        for k in ("note", "needs"):
+            if prev.get(k) and not meta.get(k):
+                meta[k] = prev[k]
+    except (OSError, ValueError):
+        pass
     r = sh(["git", "-C", "/repo", "worktree", "add", "--detach", wt, "HEAD"])
     try:
         meta["base_commit"] = sh(["git", "-C", "/repo", "rev-parse", "--short", "HEAD"]).stdout.strip()
